@@ -278,6 +278,7 @@ class Item:
         self.gran = 1
         self.seg = 'code'
         self.flags = ''
+        self.cpu = None
 
     def classes(self):
         return sorted(set(c for _, _, c in self.spans))
@@ -502,6 +503,7 @@ class Gen:
         st = self.st
         it.fam = fam
         it.kind = kind
+        it.cpu = self.tgt.cpu
         it.addr = st.addr
         it.gran = st.gran
         it.seg = st.seg
@@ -644,14 +646,19 @@ class Gen:
         size = self.M16_SIZES[attr or 'w'][0]
         mnem = 'ds' + ('.' + attr if attr else '')
         it = Item('')
-        if self.need_pad(size):
-            attr, size, mnem = 'b', 1, 'ds.b'
         n = rng.choice([1, 1, 2, 3, 5, 20])
-        if size == 2 and not self.st.padding and rng.random() < 0.3:
-            # "DS.W 0 ... the program counter will be rounded up to the next even address"
+        if size == 2 and rng.random() < 0.5:
+            # "The other purpose is the alignment of the program counter which is achieved by a count
+            # specification of 0 ... with a DS.W 0 the program counter will be rounded up to the next even
+            # address".  That fixes the outcome for every program counter and either PADDING setting
+            # (padding in front of the statement and the alignment itself lead to the same even address):
+            # advance 1 at an odd address, 0 at an even one, nothing emitted.
+            # MANUAL-SILENT: the boundary meant for the other sizes ("DS.D 0 ... next double word boundary").
             n = 0
             it.reserve = self.st.addr & 1
         else:
+            if self.need_pad(size):
+                attr, size, mnem = 'b', 1, 'ds.b'
             it.reserve = n * size
         it.text = '%s\t%d' % (mnem, n)
         it.expect = 'ok'
@@ -1453,15 +1460,21 @@ class Gen:
             out.append(Item('org\t%d' % st.addr))
         return out
 
-    def program(self, nstmts, bad_share=0.25, big=None):
-        """big: None, or the statement kind forced for the first statements of a directed case: the program
-        then opens with statements near the documented limits (20 arguments, 1 KiB of code per line)"""
+    def select_cpu(self, tgt, first):
+        """CPU statement plus everything the model would otherwise have to assume about the state after it:
+        the program counter (ORG), PADDING / BIGENDIAN / PACKING of the new target, and - after a switch -
+        a reset of the character table."""
         rng = self.rng
-        tgt = self.tgt
         st = self.st
+        self.tgt = tgt
+        st.tgt = tgt
         items = [Item('cpu\t%s' % tgt.cpu)]
-        st.addr = rng.choice([0, 0, 1, 2, 0x10, 0x11, rng.randrange(0, tgt.org_max)])
+        if first:
+            st.addr = rng.choice([0, 0, 1, 2, 0x10, 0x11, rng.randrange(0, tgt.org_max)])
         items.append(Item('org\t%d' % st.addr))
+        st.padding = False
+        st.bigendian = False
+        st.packing = False
         if tgt.padding is not None:
             st.padding = rng.random() < 0.6
             items.append(Item('padding\t%s' % ('on' if st.padding else 'off')))
@@ -1471,14 +1484,39 @@ class Gen:
         if tgt.packing:
             st.packing = rng.random() < 0.5
             items.append(Item('packing\t%s' % ('on' if st.packing else 'off')))
+        if not first:
+            st.charset = list(range(256))
+            items.append(Item('charset'))
+        return items
+
+    def program(self, nstmts, bad_share=0.25, big=None, switch_to=()):
+        """big: None, or the statement kind forced for the first statements of a directed case: the program
+        then opens with statements near the documented limits (20 arguments, 1 KiB of code per line).
+        switch_to: further targets (byte-granular, CODE only) selected by CPU statements in the course of the
+        program; nstmts statements are generated under each target, the first statements after every CPU
+        statement being a 16-bit and an 8-bit constant statement of the 65xx/68xx set where the target has it."""
+        rng = self.rng
+        st = self.st
+        items = self.select_cpu(self.tgt, True)
         if rng.random() < 0.4:
             items += self.charset_change()
+        todo = [TARGETS[c] for c in switch_to]
         n = 0
         guard = 0
         last_was_reserve = False
-        while n < nstmts and guard < nstmts * 6:
+        opening = ['m8_adr', 'm8_byt', 'm8_adr'] if (switch_to and 'M8' in self.tgt.fam) else []
+        while guard < nstmts * 6 * (1 + len(switch_to)):
+            if n >= nstmts:
+                if not todo or last_was_reserve:
+                    if not todo:
+                        break
+                else:
+                    items += self.select_cpu(todo.pop(0), False)
+                    n = 0
+                    opening = ['m8_adr', 'm8_byt', 'm8_adr'] if 'M8' in self.tgt.fam else []
+            tgt = self.tgt
             guard += 1
-            if rng.random() < 0.12 and not last_was_reserve:
+            if rng.random() < 0.12 and not last_was_reserve and not opening:
                 items += self.directive()
                 continue
             fam = rng.choice(tgt.fam)
@@ -1486,6 +1524,9 @@ class Gen:
             if st.seg != 'code' and fam == 'AVR':
                 name = 'avr_dx'
             bad = rng.random() < bad_share
+            if opening:
+                name = opening.pop(0)
+                bad = False
             self.big = big is not None and n < 4
             self.force = big if self.big else None
             if self.big:
